@@ -159,6 +159,42 @@ func (s *Spec) Ops(st *explore.State) []explore.Op {
 				return &cctypes.MsgRequestBatch{ChainName: ch, Sender: os[0].Bridger.Bech(), Denom: "FX", MinimumFee: sdkmath.NewInt(1), FeeReceive: scen.ExtAddr(ch, "feercv"), BaseFee: sdkmath.ZeroInt()}
 			}))
 		}
+		// the external chain reports that it switched to the latest oracle set (every oracle that is allowed to votes for the
+		// event): from then on older oracle sets and their confirmations are pruned by the end-blocker once the signed window
+		// has passed. "far": the event carries an external height beyond every timeout (batches cancelled, bridge calls refunded)
+		if osn := k.GetLatestOracleSet(ctx); osn != nil {
+			if lo := k.GetLastObservedOracleSet(ctx); lo == nil || lo.Nonce < osn.Nonce {
+				for _, far := range []bool{false, true} {
+					far := far
+					name := "ObserveOracleSet(" + ch + ")"
+					if far {
+						name = "ObserveOracleSet(" + ch + ",far-external-height)"
+					}
+					ops = append(ops, explore.Op{Name: name, Run: func(st *explore.State) {
+						kk := scen.Keeper(s.w, ch)
+						set := kk.GetLatestOracleSet(st.Ctx)
+						n := kk.GetLastObservedEventNonce(st.Ctx) + 1
+						h := kk.GetLastObservedBlockHeight(st.Ctx).ExternalBlockHeight + 1
+						if far {
+							h += 100_000_000
+						}
+						st.Outcome = "not-observed"
+						for _, o := range os {
+							if last := kk.GetLastEventNonceByOracle(st.Ctx, o.Acct.Acc()); last+1 != n {
+								continue
+							}
+							r := scen.Vote(s.w, st.Ctx, ch, o, &cctypes.MsgOracleSetUpdatedClaim{EventNonce: n, BlockHeight: h, OracleSetNonce: set.Nonce, Members: set.Members, ChainName: ch})
+							if r.Panic != nil {
+								st.Outcome = "tx-panic"
+							}
+						}
+						if kk.GetLastObservedEventNonce(st.Ctx) == n {
+							st.Accepted, st.Outcome = true, "observed"
+						}
+					}})
+				}
+			}
+		}
 		for i, o := range os {
 			o := o
 			tag := fmt.Sprintf("%s,o%d", ch, i+1)
